@@ -151,6 +151,7 @@ class RFContext:
         self.vec = vec or (lambda t: False)
         self.alias = alias or (lambda t: t)
         self.identity = set(_IDENTITY) | set(identity or ())
+        self.psum_hook = None      # (ctx, mono) -> RF | None : library identities on power sums
 
     # ---- atoms
     def atom_id(self, desc, kind):
@@ -182,6 +183,10 @@ class RFContext:
 
     def psum(self, mono):
         """mono: tuple of (vector atom id, exp) sorted (may have exp 0 entries for pure length)."""
+        if self.psum_hook is not None:
+            r = self.psum_hook(self, mono)
+            if r is not None:
+                return r
         return RF(Poly.atom(self.atom_id(("psum", mono), "scalar")))
 
     # ---- interpreter
